@@ -1599,15 +1599,11 @@ func (t *treasure) SetContentVoid(guardID guard.ID) {
 		return
 	}
 
+	// drop whatever typed value was stored: "the treasure will be retained, but its
+	// content will be set to an empty/null value"
 	t.contentChanged = true
-	if t.treasure.Content == nil {
-		t.treasure.Content = &Content{
-			Void: true,
-		}
-	}
-
-	if t.treasure.Content.Void != false {
-		t.treasure.Content.Void = true
+	t.treasure.Content = &Content{
+		Void: true,
 	}
 
 }
